@@ -298,6 +298,27 @@ func corrC18(outDir string, seed uint64, tier string, replay string) *report {
 	return rep
 }
 
+// two distinct types whose reflect.Type.String() is the same ("main.params"): a cache keyed by anything coarser than
+// the type itself confuses them
+func sameNameTypeA() reflect.Type {
+	type params struct {
+		Rounds uint32 `hash:"param:rounds"`
+		Salt   string
+		Sum    string
+	}
+	return reflect.TypeOf(params{})
+}
+
+func sameNameTypeB() reflect.Type {
+	type params struct {
+		HashPrefix string
+		Cost       uint8
+		Salt       string `hash:"length:4"`
+		Sum        string
+	}
+	return reflect.TypeOf(params{})
+}
+
 // c18History draws one history: the pool of types (generated, hand shapes; after nModelled come shapes the Coq model
 // does not describe: pointer-receiver text methods, interface-typed fields) and the calls.  Deterministic in r.
 func c18History(r *rng, nOps int, script *[]*string) (types []reflect.Type, gts []*gType, ops []histOp, nModelled int, rec []*string) {
@@ -314,7 +335,7 @@ func c18History(r *rng, nOps int, script *[]*string) (types []reflect.Type, gts 
 		gts, types = append(gts, nil), append(types, t)
 	}
 	nModelled = len(types)
-	for _, t := range []reflect.Type{reflect.TypeOf(ShapePtrRecv{}), reflect.TypeOf(ShapePtrRecvStruct{}), reflect.TypeOf(ShapeIface{}), reflect.TypeOf(ShapeIface2{})} {
+	for _, t := range []reflect.Type{reflect.TypeOf(ShapePtrRecv{}), reflect.TypeOf(ShapePtrRecvStruct{}), reflect.TypeOf(ShapeIface{}), reflect.TypeOf(ShapeIface2{}), sameNameTypeA(), sameNameTypeB()} {
 		gts, types = append(gts, nil), append(types, t)
 	}
 	var strs []string
